@@ -13,7 +13,7 @@
    (explored, not proved). *)
 From Coq Require Import Permutation.
 From MV Require Import Base.Strs Intro.Path Intro.PathProofs Intro.Model Intro.Spec Intro.Judge
-     Intro.JudgeProofs Intro.Proofs.
+     Intro.JudgeProofs Intro.Proofs Intro.Options Intro.OptionsProofs.
 
 (* ---- the judge: "the meson-info files agree with the generated build" ------------------ *)
 (* The checker accepts exactly the (intro, world) pairs related by Agree: every target has
@@ -179,6 +179,28 @@ Theorem C15_subdir_plan_resolves : forall guess prefix sd,
   resolve_first (s2l "{prefix}") prefix (comps (b_install_path_name i)) = comps (b_install_path i).
 Proof. exact subdir_plan_resolves. Qed.
 Print Assumptions C15_subdir_plan_resolves.
+
+(* ---- buildoptions ------------------------------------------------------------------------ *)
+(* "intro-buildoptions.json reports the values get_option() returned": for EVERY option store
+   (system options, project options of any subproject incl. yielding ones, per-subproject
+   overrides), every (sub)project sp and every option name n: if get_option(n) evaluated in sp
+   returns v, the listing derived from the same store reports v for (sp, n) — the entry
+   `sp:n` when there is one, else the entry `n`.  (Models _list_buildoptions with
+   pending/C15-buildoptions-yielding.diff applied.) *)
+Theorem C15_buildoptions_report_get_option : forall s sp n v,
+  wf_store s ->
+  get_value_for s {| k_name := n; k_sub := Some sp |} = Some v ->
+  reported (list_buildoptions s) sp n = Some v.
+Proof. exact buildoptions_report_get_option. Qed.
+Print Assumptions C15_buildoptions_report_get_option.
+
+(* the name printed in the file determines the (subproject, option) pair *)
+Theorem C15_buildoptions_names_unambiguous : forall i j,
+  no_colon (snd i) -> no_colon (snd j) ->
+  (forall sp, fst i = Some sp -> no_colon sp) -> (forall sp, fst j = Some sp -> no_colon sp) ->
+  render_iname i = render_iname j -> i = j.
+Proof. exact render_iname_inj. Qed.
+Print Assumptions C15_buildoptions_names_unambiguous.
 
 (* ---- tests ----------------------------------------------------------------------------- *)
 (* intro-tests.json / intro-benchmarks.json list the command and arguments meson test uses *)
